@@ -365,8 +365,10 @@ def wfspecs(draw, profile: Optional[dict] = None):
             sec['lines'].append({'lhs': tree, 'rhs': rhs})
             placed_rhs.add(t)
         # future trigger: single-atom line onto a fresh consumer
-        if (pf['future'] and rec['kind'] == 'P' and len(members) >= 2
-                and draw(st.integers(0, 7)) == 0):
+        # (on a one-off section the consumer is in the pool only briefly:
+        # the future offset must stop counting once it has gone)
+        if (pf['future'] and len(members) >= 2
+                and draw(st.integers(0, pf.get('future_odds', 7))) == 0):
             src = members[0]
             has_pre = any(src in ln['rhs'] and ln['lhs'] is not None
                           for s in sections for ln in s['lines'])
@@ -377,7 +379,9 @@ def wfspecs(draw, profile: Optional[dict] = None):
                 sec['lines'] = [ln for ln in sec['lines']
                                 if not (ln['lhs'] is None and ln['rhs'] == [tgt])]
                 sec['lines'].append({
-                    'lhs': {'t': src, 'off': rec['step'], 'abs': None,
+                    'lhs': {'t': src, 'abs': None,
+                            'off': (rec['step'] if rec['kind'] == 'P'
+                                    else draw(st.integers(1, 2))),
                             'out': 'succeeded', 'implicit': True,
                             'longform': False},
                     'rhs': [tgt]})
